@@ -36,6 +36,7 @@ func VsH_Step() {
 	states := make([]engine.WorkSpaceState, n)
 	using := make([]bool, n)
 	queued := make([]bool, n)
+	dupQueued := make([]bool, n)
 	plottingIdx := -1
 	for i := 0; i < n; i++ {
 		states[i] = engine.WorkSpaceState(vsFork(4, "state"))
@@ -49,7 +50,10 @@ func VsH_Step() {
 		if using[i] {
 			// a request for the space may still sit in the plotter queue whatever its present state (duplicate requests,
 			// or a request queued before the state changed)
-			queued[i] = vsFork(2, "queued") == 1
+			// (zero, one or two entries: the same space may be queued twice, e.g. plot then mine before the plotter ran)
+			nq := vsFork(3, "queued")
+			queued[i] = nq >= 1
+			dupQueued[i] = nq == 2
 		}
 	}
 	sk, wss, dbs := vsKeeper(n, states, using)
@@ -58,6 +62,10 @@ func VsH_Step() {
 		if queued[i] {
 			q := newQueuedWorkSpace(wss[i], vsNondetBool("queued.wouldMining"))
 			sk.queue.Push(q, q.priority())
+			if dupQueued[i] {
+				q2 := newQueuedWorkSpace(wss[i], vsNondetBool("queued.wouldMining"))
+				sk.queue.Push(q2, q2.priority())
+			}
 		}
 	}
 	wouldMining0 := vsNondetBool("popped.wouldMining")
